@@ -248,6 +248,21 @@ Fixpoint ubi_end (cf : config) (us : list ubi) (s : st) : outcome st :=
       else ubi_end cf r s
   end.
 
+(* the native amounts minted by the ubi EndBlocker, one entry per paying record, in processing order
+   (what the bank's coinbase events of that end blocker show) *)
+Fixpoint ubi_mints (cf : config) (us : list ubi) (s : st) : list Z :=
+  match us with
+  | [] => []
+  | u :: r =>
+      if ubi_due cf (s_now s) u then
+        match process_ubi cf s u with
+        | Ok s' => (if nat_supply s' =? nat_supply s then [] else [nat_supply s' - nat_supply s]) ++ ubi_mints cf r s'
+        | Err _ => ubi_mints cf r s
+        | Panic _ => []
+        end
+      else ubi_mints cf r s
+  end.
+
 (* one block: distributor BeginBlocker (allocation from height 2 on), ubi EndBlocker, distributor
    EndBlocker.  Returns the states after each of the three. *)
 Definition block_parts (cf : config) (s : st) (dt : Z) : outcome (st * st * st) :=
@@ -325,6 +340,7 @@ Inductive op : Type :=
 | OUpsertMsg (actor : Z) (perm : bool) (d supply cap owner : Z) (noedit : bool) (fee stakecap : Z)
 | OPropUpsert (d supply cap owner : Z) (noedit : bool) (fee stakecap : Z)
 | OMintIssue (actor d amt : Z)
+| OMintIssue2 (actor d amt1 amt2 : Z)      (* two MsgMintIssueTx in ONE transaction: all or nothing *)
 | OBurn (actor d amt : Z)
 | OFee (actor amt : Z).
 
@@ -338,6 +354,7 @@ Definition step (cf : config) (s : st) (o : op) : outcome st :=
   | OUpsertMsg actor perm d supply cap owner noedit fee stakecap => upsert_msg cf s actor perm d supply cap owner noedit fee stakecap
   | OPropUpsert d supply cap owner noedit fee stakecap => prop_upsert s d supply cap owner noedit fee stakecap
   | OMintIssue actor d amt => mint_issue cf s actor d amt
+  | OMintIssue2 actor d amt1 amt2 => do s1 <- mint_issue cf s actor d amt1; mint_issue cf s1 actor d amt2
   | OBurn actor d amt => mint_burn s actor d amt
   | OFee actor amt => debit s actor native amt
   end.
